@@ -11,6 +11,8 @@
 From AV Require Import Base.Bytes Base.Outcome Hash.HashModel Tree.Heap Tree.Ops Tree.Script Tree.Inv Tree.Copy
   Tree.CopyProofsDefs Tree.CopyProofsDeep Tree.CopyProofsCreate Tree.CopyProofsTop Tree.CopyProofsBridge
   Tree.CopyProofsTiny Tree.Frame Tree.CopyProofsReg Tree.CopyProofsFK Tree.CopyProofsDup Tree.CopyProofsRegId.
+From AV Require Import Tree.Serialize Tree.Script2 Tree.CopyProofsIrp Tree.CopyProofsIndep Tree.CopyProofsIndep2
+  Tree.CopyProofsTwo Tree.CopyProofsUnique Tree.CopyProofsText.
 Open Scope list_scope.
 Open Scope N_scope.
 
@@ -205,3 +207,163 @@ Theorem C13_register_walk_ids : forall T f m cur i w r w',
   (forall k j, HasId w m k j -> exists j', HasId w' m k j') /\
   (UniqueRel T w i -> forall k j, J T cur i w k j -> HasId w' m k j).
 Proof. exact register_subtree_ids. Qed.
+
+(* ================================================================== independence, the whole alphabet
+   Vocabulary (Tree/CopyProofsIrp.v): a protected region is a set P of node ids, a set PM of model numbers and a set PF
+   of file ids.  Sealed P PM PF w: P is allocated, nothing outside P links into P or claims a protected model, the roots
+   and index maps of the unprotected models mention no node of P, protected models / files exist, files outside PF
+   belong to unprotected models.  Same P PM PF w w': every node of P, every record of a model in PM and every record
+   of a file in PF is unchanged (and the world only grew).  irp P PM PF c: from a Sealed world c ends in a Sealed world
+   with Same.  op_handles o / op_models o (Tree/CopyProofsIndep.v): the node handles an operation writes through (for a
+   move: destination AND moved element) and the models it addresses by number. *)
+
+(* every operation of `op` all of whose handles and models are outside the protected region leaves it alone *)
+Theorem C13_independent_region : forall T tab_el tab_en check_fn LATEST root_attrs P PM PF o,
+  op_apart P PM o -> irp P PM PF (run_op T tab_el tab_en check_fn LATEST root_attrs o).
+Proof. exact irp_run_op. Qed.
+
+(* ... along every history *)
+Theorem C13_independent_region_history : forall T tab_el tab_en check_fn LATEST root_attrs P PM PF l w w',
+  Sealed P PM PF w -> Forall (op_apart P PM) l ->
+  Inv.run_ops T tab_el tab_en check_fn LATEST root_attrs l w = Val w' -> Sealed P PM PF w' /\ Same P PM PF w w'.
+Proof. exact independent_history. Qed.
+
+(* INDEPENDENCE (all 26 operations; supersedes C13_independent_partial): in a world with C03's TreeInv, let b be a model
+   whose files exist and are listed (FilesListed) and whose tree no other model's index mentions (IndexApart).  An
+   operation none of whose handles lies in b's tree and which does not address b by number leaves b alone: its record
+   (root, file list, both index maps), the records of its files, every node of its tree, its reachable set; and no
+   other index mentions b's tree afterwards.  For a move this reads: only the model of the destination and the model
+   of the moved element can change. *)
+Theorem C13_independent : forall T tab_el tab_en check_fn LATEST root_attrs o w r w' b xb,
+  TreeInv w -> nth_opt (w_models w) (N.to_nat b) = Some xb ->
+  IndexApart w (Sub w (m_root xb)) b -> FilesListed w b xb ->
+  (forall i, In i (op_handles o) -> ~ Sub w (m_root xb) i) -> (forall m, In m (op_models o) -> m <> b) ->
+  run_op T tab_el tab_en check_fn LATEST root_attrs o w = Val (r, w') ->
+  nth_opt (w_models w') (N.to_nat b) = Some xb /\
+  (forall f, In f (m_files xb) -> nth_opt (w_files w') (N.to_nat f) = nth_opt (w_files w) (N.to_nat f)) /\
+  (forall x, Sub w (m_root xb) x -> w_nodes w' x = w_nodes w x) /\
+  (forall x, Sub w' (m_root xb) x <-> Sub w (m_root xb) x) /\
+  IndexApart w' (Sub w' (m_root xb)) b.
+Proof. exact independent_all. Qed.
+
+(* ... and every history of such operations (the handles of later operations may be nodes allocated on the way) *)
+Theorem C13_independent_history : forall T tab_el tab_en check_fn LATEST root_attrs l w w' b xb,
+  TreeInv w -> nth_opt (w_models w) (N.to_nat b) = Some xb ->
+  IndexApart w (Sub w (m_root xb)) b -> FilesListed w b xb ->
+  Forall (op_apart (Sub w (m_root xb)) (fun m => m = b)) l ->
+  Inv.run_ops T tab_el tab_en check_fn LATEST root_attrs l w = Val w' ->
+  nth_opt (w_models w') (N.to_nat b) = Some xb /\
+  (forall f, In f (m_files xb) -> nth_opt (w_files w') (N.to_nat f) = nth_opt (w_files w) (N.to_nat f)) /\
+  (forall x, Sub w (m_root xb) x -> w_nodes w' x = w_nodes w x) /\
+  (forall x, Sub w' (m_root xb) x <-> Sub w (m_root xb) x).
+Proof. exact independent_histories. Qed.
+
+(* the extended alphabet op2 (Tree/Script2.v).  PARTIAL: pending_indep2 = OpLoad.  Covered besides Op1: sort (element
+   and model), duplicate (reads its original, which may be protected), set_version, check_version_compatibility,
+   serialize of an element, serialize of a file (it WRITES the schema-location attribute of the root of the file's
+   model: the file has to be outside PF) *)
+Theorem C13_independent2_region_partial :
+  forall T tab_el tab_at tab_en check_fn float_parse float_fmt LATEST name_index name_definition_ref attr_schema_location
+         root_attrs P PM PF o,
+  pending_indep2 o = false -> op2_apart P PM PF o ->
+  irp P PM PF (run_op2 T tab_el tab_at tab_en check_fn float_parse float_fmt LATEST name_index name_definition_ref
+                       attr_schema_location root_attrs o).
+Proof. exact irp_run_op2. Qed.
+
+Theorem C13_independent2_partial :
+  forall T tab_el tab_at tab_en check_fn float_parse float_fmt LATEST name_index name_definition_ref attr_schema_location
+         root_attrs o w r w' b xb,
+  pending_indep2 o = false ->
+  TreeInv w -> nth_opt (w_models w) (N.to_nat b) = Some xb ->
+  IndexApart w (Sub w (m_root xb)) b -> FilesListed w b xb ->
+  op2_apart (Sub w (m_root xb)) (fun m => m = b) (fun f => In f (m_files xb)) o ->
+  run_op2 T tab_el tab_at tab_en check_fn float_parse float_fmt LATEST name_index name_definition_ref
+          attr_schema_location root_attrs o w = Val (r, w') ->
+  nth_opt (w_models w') (N.to_nat b) = Some xb /\
+  (forall f, In f (m_files xb) -> nth_opt (w_files w') (N.to_nat f) = nth_opt (w_files w) (N.to_nat f)) /\
+  (forall x, Sub w (m_root xb) x -> w_nodes w' x = w_nodes w x) /\
+  (forall x, Sub w' (m_root xb) x <-> Sub w (m_root xb) x).
+Proof. exact independent_all2_partial. Qed.
+
+Theorem C13_independent2_history_partial :
+  forall T tab_el tab_at tab_en check_fn float_parse float_fmt LATEST name_index name_definition_ref attr_schema_location
+         root_attrs P PM PF l w w',
+  Sealed P PM PF w -> Forall (fun o => pending_indep2 o = false /\ op2_apart P PM PF o) l ->
+  run_ops2 T tab_el tab_at tab_en check_fn float_parse float_fmt LATEST name_index name_definition_ref
+           attr_schema_location root_attrs l w = Val w' ->
+  Sealed P PM PF w' /\ Same P PM PF w w'.
+Proof. exact independent_history2. Qed.
+
+(* TWO SIDES (Tree/CopyProofsTwo.v).  sides: two regions A and B that partition the allocated node ids, the model
+   numbers and the file ids; Two s w: each is Sealed against the other.  A history is a list of operations of op2
+   (OpLoad excluded), each tagged with the side it works on (OnA / OnB: its handles, models and files are apart from
+   the OTHER side: two_ok); whatever a step allocates joins the side that worked (step_sides).  LinkBound w_t, "no
+   dangling ids" (every id stored in a node, a model record or a file record is allocated), is assumed of every state
+   (two_ok).  Then every step leaves the side it does not work on alone (two_indep: Same for that side at every step):
+   the two sides evolve independently along ANY such history *)
+Theorem C13_two_sided :
+  forall T tab_el tab_at tab_en check_fn float_parse float_fmt LATEST name_index name_definition_ref attr_schema_location
+         root_attrs l s w,
+  Two s w -> LinkBound w ->
+  two_ok T tab_el tab_at tab_en check_fn float_parse float_fmt LATEST name_index name_definition_ref attr_schema_location
+         root_attrs l s w ->
+  two_indep T tab_el tab_at tab_en check_fn float_parse float_fmt LATEST name_index name_definition_ref
+            attr_schema_location root_attrs l s w.
+Proof. exact two_sided. Qed.
+
+(* DUPLICATE, THEN INDEPENDENT: duplicate() itself leaves everything that existed alone (all nodes, all model records,
+   all file records), and afterwards side A = everything that existed before the call (the original and all other
+   models) and side B = everything the call allocated (after_dup: the nodes of the copy — by C13_duplicate everything
+   reachable from the copy's root —, its model record, its files) are Two sides: they evolve independently along any
+   later history (C13_two_sided).  Also after a failed duplicate (B is then garbage only). *)
+Theorem C13_duplicate_then_independent :
+  forall T tab_el tab_at tab_en check_fn float_parse float_fmt LATEST name_index name_definition_ref attr_schema_location
+         root_attrs m l w0 r w1,
+  LinkBound w0 ->
+  run_op2 T tab_el tab_at tab_en check_fn float_parse float_fmt LATEST name_index name_definition_ref
+          attr_schema_location root_attrs (OpDuplicate m) w0 = Val (r, w1) ->
+  LinkBound w1 ->
+  Same (fun i => i < w_next w0) (fun k => k < N.of_nat (List.length (w_models w0)))
+       (fun f => f < N.of_nat (List.length (w_files w0))) w0 w1 /\
+  Two (after_dup w0 w1) w1 /\
+  (two_ok T tab_el tab_at tab_en check_fn float_parse float_fmt LATEST name_index name_definition_ref attr_schema_location
+          root_attrs l (after_dup w0 w1) w1 ->
+   two_indep T tab_el tab_at tab_en check_fn float_parse float_fmt LATEST name_index name_definition_ref
+             attr_schema_location root_attrs l (after_dup w0 w1) w1).
+Proof. exact duplicate_then_independent. Qed.
+
+(* UNIQUE NAME, TERMINATION: the search loop of make_unique_item_name (called with |idents|+2 rounds) returns after at
+   most |idents|+1 candidates orig, orig_1, orig_2, .. with one that is free in the index: it cannot run out of fuel
+   (decimal text is injective below 10^40, pigeonhole: Tree/NoPanicProofsDec.v, agent-c12) *)
+Theorem C13_unique_loop_total : forall w m pp orig x,
+  nth_opt (w_models w) (N.to_nat m) = Some x -> N.of_nat (List.length (m_idents x)) < 10 ^ 40 ->
+  exists i, (i <= List.length (m_idents x))%nat /\
+    assoc_get (pp ++ [47] ++ cand orig i) (m_idents x) = None /\
+    unique_loop (S (S (List.length (m_idents x)))) m pp orig orig 1 w = Val (OK (cand orig i, N.of_nat (S i)), w).
+Proof. exact unique_loop_total. Qed.
+
+(* TEXT.  IsoF w w' ff ff' s c (Tree/CopyProofsText.v): the subtree of s in w and the subtree of c in w' are equal up to
+   node ids (Iso) and corresponding sub-elements pass the file filters ff / ff' alike.  Then the serializer writes the
+   same bytes for both.  This is the text half of "a duplicate's files have the text of the original's files"
+   (ff = Some f, ff' = Some (the copy of f)); PENDING for C13_duplicate_text: deriving IsoF for the result of
+   duplicate() (Iso of every copied child under AllValidIn, the alignment of the two pre-order walks, the translation
+   of the file sets) — covered by the implementation oracle DUP-TEXT only *)
+Theorem C13_iso_text : forall T tab_el tab_at tab_en float_fmt w w' ff ff' fuel s c indent inline,
+  IsoF w w' ff ff' s c ->
+  ser_heap T tab_el tab_at tab_en float_fmt fuel w ff s indent inline =
+  ser_heap T tab_el tab_at tab_en float_fmt fuel w' ff' c indent inline.
+Proof. exact iso_text. Qed.
+
+(* a copy made in the version of its destination of a source that is valid there (C13_copy_same_version), and that was
+   not renamed, is Iso to its source in the FINAL world and has the text of its source *)
+Theorem C13_copy_text : forall T tab_el tab_at tab_en float_fmt LATEST h other pos w c w' v,
+  Closed w -> h < w_next w -> copy_call T LATEST h other pos w = Val (OK c, w') ->
+  min_version LATEST h w = Val (OK v, w) -> AllValidIn T v w other ->
+  exists w1, Iso w w1 other c /\ CopyRel T w1 w' h c /\
+    ((forall i, i <> h -> i <> c -> w_nodes w' i = w_nodes w1 i) ->
+     Iso w w' other c /\
+     forall fuel indent inline,
+       ser_heap T tab_el tab_at tab_en float_fmt fuel w None other indent inline =
+       ser_heap T tab_el tab_at tab_en float_fmt fuel w' None c indent inline).
+Proof. exact copy_text. Qed.
+
